@@ -529,3 +529,11 @@ package boltz
 //@   modifies curPos[cursor.wrapped]
 //@   ensures[lands-on-present] curPos[cursor.wrapped] < curLen[cursor.wrapped] ==> entPresent(cursor.store, curSeq[cursor.wrapped][curPos[cursor.wrapped]]) && !before(curDesc[cursor.wrapped], curSeq[cursor.wrapped][curPos[cursor.wrapped]], str(bytes))
 //@   invariant 1: 0 <= curPos[cursor.wrapped] && curPos[cursor.wrapped] <= curLen[cursor.wrapped] && forall(i, curPos[cursor.wrapped] <= i && i < curLen[cursor.wrapped] ==> !before(curDesc[cursor.wrapped], sel(curSeq[cursor.wrapped], i), str(bytes)))
+
+// entitySetSymbolRuntime: the cursor over one entity's set field (typed string keys); no cursor = empty set
+//@ view curSeq[*entitySetSymbolRuntime] = untagArr(bcKeys[self.cursor])
+//@ view curLen[*entitySetSymbolRuntime] = ite(self.cursor == nil, 0, bcLen[self.cursor])
+//@ view curPos[*entitySetSymbolRuntime] = ite(self.cursor == nil, 0, bcPos[self.cursor])
+//@ view curDesc[*entitySetSymbolRuntime] = false
+//@ typeinv entitySetSymbolRuntime: (self.cursor == nil ==> self.value == nil) && (self.cursor != nil ==> 0 <= bcLen[self.cursor] && bcLen[self.cursor] < MaxInt64 && 0 <= bcPos[self.cursor] && bcPos[self.cursor] <= bcLen[self.cursor] && sortedKeys(bcKeys[self.cursor], bcLen[self.cursor]) && (self.value != nil) == (bcPos[self.cursor] < bcLen[self.cursor]) && (self.value != nil ==> str(self.value) == bcKeys[self.cursor][bcPos[self.cursor]] && len(self.value) > 0) && forall(i, 0 <= i && i < bcLen[self.cursor] ==> sel(bcKeys[self.cursor], i) == prepend(TypeString, untag(sel(bcKeys[self.cursor], i)))))
+//@ implcheck C14 ast.SeekableSetCursor *entitySetSymbolRuntime
